@@ -202,7 +202,12 @@ def classify(rejs, divs):
         d = r["div"]
         step = d["hist"][min(d["at"], len(d["hist"]) - 1)] if d["hist"] else "?"
         # which recorded step was rejected: find it through the trace line action sequence
-        out.append(dict(props=attribute(r["action"], r["why"]),
+        props = attribute(r["action"], r["why"])
+        if r["action"] == "T" and any(x.startswith("D") and x.endswith("P") for x in d["hist"]):
+            # a timeout at the wrong moment of a multi-page response: the remaining pages, and the last one, are not
+            # delivered to the request (C10's "delivers all its pages ... and completes it on the last page")
+            props = props | {"C10"}
+        out.append(dict(props=props,
                         sig="inflight-seq|%s|%s" % (r["action"], r["why"]),
                         detail="real trace rejected by InFlightAbs at a %s step (%s): history %s; first divergence from the "
                                "code-shaped model at step %d: real %s / model %s" % (
